@@ -133,7 +133,8 @@ class Effects:
                     return [Root("global", f"{base.short}.{e.attr}", (base,), via)]
                 if isinstance(r, Ext) or isinstance(base, Ext):
                     return [Root("global", norm(e), (), via)]
-            return self.roots(fn, e.value, depth + 1, (e.attr,) + via, seen)
+            base_roots = self.roots(fn, e.value, depth + 1, (e.attr,) + via, seen)
+            return base_roots + self._shared_field_roots(fn, e, depth, via, seen)
         if isinstance(e, ast.Subscript):
             return self.roots(fn, e.value, depth + 1, ("[]",) + via, seen)
         if isinstance(e, ast.Name):
@@ -153,6 +154,42 @@ class Effects:
         if isinstance(e, (ast.Starred, ast.Await, ast.NamedExpr)):
             return self.roots(fn, e.value, depth + 1, via, seen)
         return [Root("unknown", norm(e)[:30], (), via)]
+
+    def _shared_field_roots(self, fn, e: ast.Attribute, depth, via, seen) -> List[Root]:
+        """`obj.attr` can denote an object shared between instances:
+        (a) attr is bound at class level to a mutable object and no method ever gives the instance its own (`self.attr = ...`);
+        (b) some method binds the instance attribute to an object that is itself shared (`self.attr = self.<class table>`)."""
+        try:
+            classes, _, _, _ = self.cg._recv_classes(fn, e.value)
+        except Exception:
+            return []
+        out: List[Root] = []
+        for c in classes:
+            fam = list(c.mro)
+            owner = next((k for k in fam if e.attr in k.class_attrs), None)
+            inst_stores = []
+            for k in fam:
+                for m in k.methods.values():
+                    sn = m.self_name
+                    if not sn or m.is_classmethod:
+                        continue
+                    for n in fn_nodes(m):
+                        tgs = n.targets if isinstance(n, ast.Assign) else ([n.target] if isinstance(n, ast.AnnAssign) and n.value is not None else [])
+                        for t in tgs:
+                            if isinstance(t, ast.Attribute) and t.attr == e.attr and isinstance(t.value, ast.Name) and t.value.id == sn:
+                                inst_stores.append((m, n.value))
+            if owner is not None and not inst_stores:
+                v = owner.class_attrs[e.attr]
+                if v is not None and not isinstance(v, (ast.Constant, ast.Lambda, ast.JoinedStr, ast.Tuple)):
+                    # a display, a constructor call or a reference to a module-level table: one object for every instance
+                    out.append(Root("global", f"{owner.short}.{e.attr}", (owner,), via))
+            for m, rhs in inst_stores:
+                if depth > 5 or id(rhs) in seen:
+                    continue
+                for r in self.roots(m, rhs, depth + 2, via, set(seen)):
+                    if r.kind in ("global", "cls"):
+                        out.append(r)
+        return out
 
     def _name_roots(self, fn, e: ast.Name, depth, via, seen) -> List[Root]:
         name = e.id
